@@ -75,7 +75,7 @@ def gen_config(rng, names, allow_stop=True):
             stop = rng.choice(names)
             sect.append({stop: {"rule": {"nosuchrule_001": {"disable": True}}}})
         rng.shuffle(sect)
-        cfg["file_rules" if rng.random() < 0.7 else "file_rules"] = sect
+        cfg["file_rules"] = sect
     r = rng.random()
     if r < 0.1:
         cfg["linesep"] = "\n"
@@ -179,8 +179,116 @@ def gen_batch(seed):
 
 def split_argv(desc):
     a = list(desc["argv"])
+    if "-f" not in a:
+        return a, []
     i = a.index("-f")
     return a[:i], a[i + 1 :]
+
+
+def config_of(desc):
+    for f in desc["sandbox"]:
+        if f["path"] == "cfg.json":
+            return json.loads(workload.sb_bytes(f).decode())
+    return None
+
+
+def set_config(desc, cfg):
+    desc["sandbox"] = [f for f in desc["sandbox"] if f["path"] != "cfg.json"]
+    if cfg is None:
+        return
+    desc["sandbox"].append(workload.sb_entry("cfg.json", common.json_bytes(cfg)))
+    head, names = split_argv(desc)
+    if "-c" not in head:
+        head += ["-c", "cfg.json"]
+        desc["argv"] = head + (["-f"] + names if names else [])
+
+
+def entry_name(e):
+    return list(e.keys())[0] if isinstance(e, dict) else e
+
+
+def refine_config(desc, env):
+    """Feedback-directed per-file configuration: learn which rules report on which file of the
+    batch (solo -ap runs of the same tree), then write per-file sections (file_rules or file_list)
+    that alter exactly such rules, so that a section applied to the wrong file, lost, or leaking
+    into a neighbour changes some file's result."""
+    rng = substream(desc["run_seed"], "refine")
+    names = [f["path"] for f in desc["sandbox"] if f["path"].endswith(".vhd")]
+    if desc["meta"].get("stop") or rng.random() < 0.35 or len(names) < 2:
+        return desc
+    cfg = config_of(desc) or {}
+    cfg.pop("file_rules", None)
+    cfg.pop("file_list", None)
+    d0 = copy.deepcopy(desc)
+    set_config(d0, cfg if cfg else None)
+    head, _ = split_argv(d0)
+    keep = []
+    skip = 0
+    for x in head:
+        if skip:
+            skip -= 1
+            continue
+        if x in ("--fix", "--backup", "-ap"):
+            continue
+        if x in ("-fp", "--json", "--junit", "-p", "-of"):
+            skip = 1
+            continue
+        keep.append(x)
+    fired = {}
+    for n in names:
+        d = copy.deepcopy(d0)
+        d["argv"] = ["-p", "1", "-ap", "--json", "out/learn.json"] + keep + ["-f", n]
+        d["sandbox"] = [f for f in d["sandbox"] if not f["path"].endswith(".vhd") or f["path"] == n]
+        key = ("c15learn", common.desc_key(d, ("sandbox", "argv")))
+        if key not in env.cache:
+            r = env.run(d, keep_files=("out/learn.json",))
+            ids = set()
+            try:
+                for fe in json.loads(r["kept"]["out/learn.json"].decode())["files"]:
+                    for v in fe["violations"]:
+                        ids.add(v["rule"])
+            except Exception:
+                pass
+            env.cache[key] = sorted(ids)
+        fired[n] = env.cache[key]
+    allfired = sorted({u for v in fired.values() for u in v})
+    if not allfired:
+        return desc
+    sect = []
+    picks = rng.sample(names, rng.randint(1, min(3, len(names))))
+    for n in picks:
+        pool = (fired[n] * 2 + allfired) or allfired
+        rr = {}
+        for _ in range(rng.randint(1, 4)):
+            u = rng.choice(pool)
+            k = rng.random()
+            rr[u] = {"disable": True} if k < 0.7 else ({"severity": "Warning"} if k < 0.85 else {"fixable": False})
+        sect.append({n: {"rule": rr}})
+    if rng.random() < 0.7:
+        top = cfg.setdefault("rule", {})
+        if rng.random() < 0.5:
+            top.setdefault(rng.choice(allfired), {"disable": False})
+        else:
+            top.setdefault("global", {}).setdefault("indent_size", 2)
+    use_list = rng.random() < 0.35 and not desc["meta"].get("glob") and not desc["meta"].get("dup")
+    head, args = split_argv(desc)
+    if use_list:
+        others = [n for n in names if n not in picks]
+        entries = sect + [n for n in others if rng.random() < 0.8]
+        rng.shuffle(entries)
+        cfg["file_list"] = entries
+        listed = [entry_name(e) for e in entries]
+        # some files now come from the configuration only
+        args = [a for a in args if a not in listed or rng.random() < 0.5]
+        desc["argv"] = head + (["-f"] + args if args else [])
+        desc["meta"]["file_list"] = True
+    else:
+        rng.shuffle(sect)
+        cfg["file_rules"] = sect
+    set_config(desc, cfg)
+    desc["meta"]["config"] = True
+    desc["meta"]["per_file_sections"] = len(sect)
+    return desc
 
 
 def solo_desc(desc, name):
@@ -193,6 +301,11 @@ def solo_desc(desc, name):
     d["argv"] = head + ["-f", name]
     n = os.path.normpath(name)
     d["sandbox"] = [f for f in d["sandbox"] if not f["path"].endswith(".vhd") or os.path.normpath(f["path"]) == n]
+    cfg = config_of(d)
+    if cfg and "file_list" in cfg:
+        # a file_list entry also puts the file on the scan list: the solo run keeps this file's entry only
+        cfg["file_list"] = [e for e in cfg["file_list"] if os.path.normpath(entry_name(e)) == n]
+        set_config(d, cfg)
     d["decisions"] = None
     d["faults"] = []
     return d
@@ -307,6 +420,12 @@ def evaluate(desc, res, env):
                 matches = [seq[pos]] if pos < len(seq) else []
             flat.extend(matches)
         pos = len(flat)
+    cfg = config_of(desc)
+    if cfg and "file_list" in cfg:
+        for e in cfg["file_list"]:
+            n = entry_name(e)
+            if n not in flat:
+                flat.append(n)
     stop_name = None
     solos = {}
     for n in dict.fromkeys(flat):
@@ -631,7 +750,7 @@ def run_job(job, env):
     elif mode == "longlived":
         d = gen_longlived(seed)
     else:
-        d = gen_batch(seed)
+        d = refine_config(gen_batch(seed), env)
     d["hashseed_class"] = job.get("class", 0)
     V, res = judge(d, env)
     if V is None:
